@@ -4,7 +4,7 @@ import ast
 from .. import dispatch
 from ..cfg import CFG
 from ..report import AnalysisError, borrow, norm
-from ..srcmodel import own_nodes, own_statements
+from ..srcmodel import own_nodes, own_statements, program_order
 from ..terms import Resolver, alternatives, show, walk
 
 PROP = "C04"
@@ -116,7 +116,7 @@ def r3_merge_and_removal(rep, ctx):
     calls = [c for c in own_nodes(fn.node) if isinstance(c, ast.Call) and res.term(c.func) == P["operation_exp"]]
     rep.floor("C04.R3", "exponent merges", len(calls), 1)
     zero_seen = False
-    for i_, c in enumerate(sorted(calls, key=lambda c: (c.lineno, c.col_offset))):
+    for i_, c in enumerate(sorted(calls, key=program_order(fn.node))):
         a0, a1 = (res.term(x) for x in c.args[:2]) if len(c.args) == 2 else (None, None)
 
         def left_exp(t):
